@@ -219,19 +219,42 @@ Proof. exact convert_rows_in_use_refuted_lemma. Qed.
 Print Assumptions convert_rows_in_use_refuted.
 
 (* ---------------------------------------------------------------- the vnacal_new_t allocation skeleton (Mem/NewAlloc.v) *)
+Require Import Lia.
 Require Import LV.Mem.NewAlloc LV.Mem.NewAllocProofs.
 
-(* vnacal_new_set_m_error (allocate once, overwrite, clear with NULL NULL, the spline temporaries), on a vnacal_new_t in
-   any state, beside any other live blocks F, for every argument class and every fault point: the call completes, and
-   afterwards the ledger is again exactly the blocks the structure (and the parameters) refer to - nothing freed twice,
-   nothing used after free, nothing orphaned.
-   PARTIAL: the same statement for vnacal_new_alloc, the add functions, vnacal_new_solve and vnacal_new_free, and the
-   no-fault / no-leak theorems over whole histories ([whistory]) are not proved; model and library are compared on
-   generated histories instead (lib/mem_tie.py run_new_tie). *)
-Theorem new_merr_no_fault_partial : forall F v ps a s, Post F v ps s ->
-  exists v' o s', set_m_error NFixed v a s = Ok ((v', o), s') /\ Post F v' ps s'.
-Proof. exact new_merr_fault_clean_lemma. Qed.
-Print Assumptions new_merr_no_fault_partial.
+(* The whole life cycle: for every set of parameters in creation order, every list of calls (vnacal_new_alloc, set frequency
+   vector, add with any argument class / parameter list / equation shape, vnacal_new_set_m_error, vnacal_new_solve with any
+   number of kernel requests, vnacal_new_free, on live / freed / never made handles, no bound on the length) followed by
+   vnacal_free, with or without one failing request: no out-of-bounds, use after free or double free ... *)
+Theorem new_no_fault : forall ks ops k f, cfg_ok ks -> whistory NFixed ks ops (start k) <> Fault f.
+Proof. exact new_no_fault_lemma. Qed.
+Print Assumptions new_no_fault.
+
+(* ... and nothing is left in the ledger, provided every hold a vnacal_new_t took on a parameter was given back
+   (the last component of the result).  PARTIAL: the hold balance itself (held = all zero for NFixed) is not proved; the tie
+   compares the hold counts of every parameter after every op. *)
+Theorem new_no_leak_partial : forall ks ops k os held s', cfg_ok ks ->
+  whistory NFixed ks ops (start k) = Ok ((os, held), s') -> (forall h, In h held -> h = 0%nat) -> live s' = [].
+Proof. exact new_no_leak_lemma. Qed.
+Print Assumptions new_no_leak_partial.
+
+(* hypothesis and conclusion are met by a concrete history (two parameters, a calibration, a standard, measurement errors, a solve) *)
+Example new_history_satisfiable :
+  cfg_ok [KScalar; KScalar; KScalar; KScalar; KUnknown 3] /\
+  exists os s', whistory NFixed [KScalar; KScalar; KScalar; KScalar; KUnknown 3]
+                  [WNew cfgA; WSetF 0; WAdd 0 (addA 4); WMErr 0 (MESet 2); WSolve 0 3 false] (start None) = Ok ((os, [0; 0; 0; 0; 0]%nat), s') /\
+                last os Done = Done.
+Proof.
+  split.
+  - intros i o H. do 5 (destruct i as [|i]; simpl in H; try discriminate). inversion H; lia. destruct i; discriminate.
+  - eexists; eexists; split; vm_compute; reflexivity.
+Qed.
+
+(* one call in any reachable state ([WInv]: the ledger equals the multiset of blocks the parameters and the calibrations on the
+   ring refer to, bucket arrays exist, unknown lists name existing parameters), any fault point: it completes and [WInv] holds again *)
+Theorem new_step_no_fault : forall w op s, WInv w s -> exists w' o s', wstep NFixed w op s = Ok ((w', o), s') /\ WInv w' s'.
+Proof. exact new_fault_clean_lemma. Qed.
+Print Assumptions new_step_no_fault.
 
 Theorem new_post_satisfiable : exists v ps s, Post [] v ps s /\ vn_merr v <> None /\ length (live s) = 6%nat.
 Proof. exact NewAllocProofs.new_post_satisfiable. Qed.
@@ -249,7 +272,7 @@ Print Assumptions new_merr_clear_dangling_refuted.
    without bucket array), in any state, beside any other live blocks F: no double free, no use after free, and afterwards
    the ledger holds exactly the solved vectors of the parameters and F - every block the structure referred to is gone.
    [LI own s]: the multiset [own] equals the ledger of [s]. *)
-Theorem new_free_no_fault_no_leak_partial : forall F v ps s, LI (vown v ++ psown ps ++ F) s -> (vn_tab v = None -> vn_nodes v = []) ->
+Theorem new_free_no_fault_no_leak : forall F v ps s, LI (vown v ++ psown ps ++ F) s -> (vn_tab v = None -> vn_nodes v = []) ->
   exists ps' s', new_free v ps s = Ok (ps', s') /\ LI (psown ps' ++ F) s' /\ length ps' = length ps.
 Proof. exact new_free_clean_lemma. Qed.
-Print Assumptions new_free_no_fault_no_leak_partial.
+Print Assumptions new_free_no_fault_no_leak.
